@@ -52,3 +52,35 @@ def appended(old_list, new_list):
     if len(new_list) < k or list(new_list[:k]) != list(old_list):
         return None
     return tuple(new_list[k:])
+
+
+# ---- finite streams of candidates (C05, unbounded mode) ----------------------------------------------------------------
+# natively these are plain tuples; symbolically (pyvc/streams.py) a stream is abstract: uninterpreted length and elements, and
+# the quantifiers below become real first-order quantifiers over the index
+
+def chained(a, b):
+    """the cards of a followed by the cards of b"""
+    return tuple(a) + tuple(b)
+
+
+def combos(xs, k):
+    """the k-element sub-sequences of xs, in the order itertools.combinations yields them"""
+    import itertools
+    return tuple(itertools.combinations(tuple(xs), k))
+
+
+def forall(xs, fn):
+    return all(fn(x) for x in xs)
+
+
+def exists(xs, fn):
+    return any(fn(x) for x in xs)
+
+
+def forall_before(xs, k, fn):
+    """fn holds for the first k elements of xs"""
+    return all(fn(x) for x in tuple(xs)[:k])
+
+
+def exists_before(xs, k, fn):
+    return any(fn(x) for x in tuple(xs)[:k])
